@@ -16,7 +16,7 @@ import vlib
 from vlib import Infra, log
 
 NWMAX = 8
-FIELDS = {"ev": "", "w": 0, "i": 0, "id": 0, "p": 0, "vec": [], "val": 0, "ok": True}
+FIELDS = {"ev": "", "w": 0, "i": 0, "id": 0, "p": 0, "vec": [], "val": 0, "alt": 0, "ok": True}
 
 
 def rec(**kw):
@@ -25,8 +25,9 @@ def rec(**kw):
     return r
 
 
-def project_vis(events):
-    """conc trace -> TraceVis records (fixed shape)."""
+def project_vis(events, mix=False):
+    """conc trace -> TraceVis records (fixed shape).  mix: every third batch of a writer touches only the child
+    collection, so a top-level marker v stands for the prefix v or, when batch v+1 is such a batch, v+1 ("alt")."""
     out = []
     ptrs = {}
     reader = {}
@@ -54,7 +55,8 @@ def project_vis(events):
         elif ev == "call" and e["op"] == "get":
             out.append(rec(ev="getcall", id=e["g"] + 1, w=e["w"] + 1))
         elif ev == "ret" and e["op"] == "get" and "err" not in e:
-            out.append(rec(ev="getret", id=e["g"] + 1, w=e["w"] + 1, val=e["val"]))
+            v = e["val"]
+            out.append(rec(ev="getret", id=e["g"] + 1, w=e["w"] + 1, val=v, alt=(v + 1 if mix and (v + 1) % 3 == 0 else v)))
     return out, len(ptrs)
 
 
@@ -128,6 +130,12 @@ def c03(tier):
         cfgs.append({"mode": ["mem", "store", "store", "app"][n % 4], "writers": [2, 3, 4, 8][(n // 4) % 4], "readers": [1, 3][(n // 2) % 2], "getters": 1,
                      "notifiers": n % 2, "batches": 25 if q else 60, "payload": 2, "maxPre": [1, 2][(n // 8) % 2], "kids": n % 3 != 0,
                      "compaction": ["", "allow", "force"][n % 3], "deferredSort": n % 5 == 0, "maxDirty": [0, 0, 40][n % 3], "seed": s})
+        if n % 4 in (1, 2):
+            # batches that touch only the child collection, only the top level, or both (buildStackDirtyTop's three-way rule under concurrency)
+            cfgs[-1]["mixKids"] = True
+        if n % 10 == 5:
+            # a long deferred sort for the readers to race with: thousands of shuffled keys per batch
+            cfgs[-1].update({"deferredSort": True, "filler": 20000, "batches": 6, "writers": 2, "maxDirty": 0})
     runs = run_conc(work, cfgs)
     recs = []
     index = []      # (first record index, run number)
@@ -144,7 +152,7 @@ def c03(tier):
         if summary.get("hang"):
             # a hang is C16's business; the trace up to the hang is still validated here
             rep.extra.setdefault("hangs_seen", []).append({"run": n, "hang": summary["hang"]})
-        pr, np_ = project_vis(evs[:-1])
+        pr, np_ = project_vis(evs[:-1], mix=bool(c.get("mixKids") and c.get("kids")))
         vecs = set(tuple(r["vec"]) for r in pr if r["ev"] == "read")
         if len(vecs) >= 3 and c["maxPre"] == 1:
             rep.nontrivial.add(n)
